@@ -80,6 +80,7 @@ func NewEngine(e EngineSpec, sfs *SimFS) *Engine {
 	// construction reads (theme.yml, data/*.yml, components/) are attributed to a reserved operation index:
 	// faults are addressed to render operations, never to the construction of the engine
 	sfs.SetOp(maxOps - 6)
+	sfs.SetJitter(e.MtimeJitter)
 	view := sfs.View(e)
 	var opts []vuego.LoadOption
 	if e.Funcs {
